@@ -150,9 +150,13 @@ def build(spec, scratch=None, stop_at=None, tolerate_flagged=False):
     inline_all = wsrc == 'inline'
     inline_ops = set(((spec.get('write') or {}).get('opts') or {}).get('inline_ops') or []) if wsrc == 'mixed' else set()
     _SCRATCH['list'] = [] if spec.get('reuse_ref_lists') else None
+    reads = spec.get('reads') or []
     for n_done, (i, j) in enumerate(call_order(spec)):
         if stop_at is not None and n_done >= stop_at:
             break
+        for ri, after, prop in reads:
+            if after == n_done:
+                getattr(b.lfs[ri], prop)        # a read-only look at the logical file between two add_* calls
         op = spec['lfs'][i]['ops'][j]
         lf = b.lfs[i]
         _SCRATCH['used_in_call'] = False
